@@ -27,5 +27,8 @@ CONFIG = dict(
 
 
 def native_replay(v, path):
+    # fixed scenario (two stored values, owner dropped): confirms, never overrules
+    if "dropped" not in v["obligation"]:
+        return None
     rc, out = native.run_test("C25", "native/c25_replay.rs", "core/src/coroutine/local.rs", "c25_native_replay")
-    return native.verdict(rc, out)
+    return native.verdict(rc, out, dict(decisive=False, scenario="fixed: c25_native_replay"))
